@@ -31,6 +31,7 @@ theorem block_validate_read_early_ok : earlyOks block_validate_read = [] := by d
 theorem block_validate_read_errors : fails block_validate_read = []
     ∧ mapped block_validate_read = [] := by decide
 theorem block_validate_read_depth : depths block_validate_read = [0, 0] := by decide
+theorem block_validate_read_guard_inputs : guardInputs block_validate_read = [] := by decide
 
 /-! ### `Block::validate (core/src/core/block.rs)` -/
 theorem block_validate_order : readOk block_validate = true ∧ spine block_validate =
@@ -40,6 +41,7 @@ theorem block_validate_early_ok : earlyOks block_validate = [] := by decide
 theorem block_validate_errors : fails block_validate = []
     ∧ mapped block_validate = [] := by decide
 theorem block_validate_depth : depths block_validate = [0, 0, 0, 0, 0, 0] := by decide
+theorem block_validate_guard_inputs : guardInputs block_validate = [] := by decide
 
 /-! ### `Block::verify_coinbase (core/src/core/block.rs)` -/
 theorem block_verify_coinbase_order : readOk block_verify_coinbase = true ∧ spine block_verify_coinbase =
@@ -49,6 +51,7 @@ theorem block_verify_coinbase_early_ok : earlyOks block_verify_coinbase = [] := 
 theorem block_verify_coinbase_errors : fails block_verify_coinbase = [("CoinbaseSumMismatch", "($9 != $7)")]
     ∧ mapped block_verify_coinbase = [] := by decide
 theorem block_verify_coinbase_depth : depths block_verify_coinbase = [1, 1, 0, 0, 1, 0, 1] := by decide
+theorem block_verify_coinbase_guard_inputs : guardInputs block_verify_coinbase = ["kernels", "static_secp_instance", "lock", "commit_value", "commit_sum", "commit_sum"] := by decide
 
 /-! ### `Block::verify_kernel_lock_heights (core/src/core/block.rs)` -/
 theorem block_verify_kernel_lock_heights_order : readOk block_verify_kernel_lock_heights = true ∧ spine block_verify_kernel_lock_heights =
@@ -58,6 +61,7 @@ theorem block_verify_kernel_lock_heights_early_ok : earlyOks block_verify_kernel
 theorem block_verify_kernel_lock_heights_errors : fails block_verify_kernel_lock_heights = [("KernelLockHeight", "($1 > self.header.height)")]
     ∧ mapped block_verify_kernel_lock_heights = [] := by decide
 theorem block_verify_kernel_lock_heights_depth : depths block_verify_kernel_lock_heights = [3] := by decide
+theorem block_verify_kernel_lock_heights_guard_inputs : guardInputs block_verify_kernel_lock_heights = [] := by decide
 
 /-! ### `Block::verify_nrd_kernels_for_header_version (core/src/core/block.rs)` -/
 theorem block_verify_nrd_kernels_for_header_version_order : readOk block_verify_nrd_kernels_for_header_version = true ∧ spine block_verify_nrd_kernels_for_header_version =
@@ -67,6 +71,7 @@ theorem block_verify_nrd_kernels_for_header_version_early_ok : earlyOks block_ve
 theorem block_verify_nrd_kernels_for_header_version_errors : fails block_verify_nrd_kernels_for_header_version = [("NRDKernelNotEnabled", "!(global::is_nrd_enabled())"), ("NRDKernelPreHF3", "(self.header.version < HeaderVersion(4))")]
     ∧ mapped block_verify_nrd_kernels_for_header_version = [] := by decide
 theorem block_verify_nrd_kernels_for_header_version_depth : depths block_verify_nrd_kernels_for_header_version = [1, 2, 2] := by decide
+theorem block_verify_nrd_kernels_for_header_version_guard_inputs : guardInputs block_verify_nrd_kernels_for_header_version = [] := by decide
 
 /-! ### `<UntrustedBlockHeader as Readable>::read (core/src/core/block.rs)` -/
 theorem untrusted_header_read_order : readOk untrusted_header_read = true ∧ spine untrusted_header_read =
@@ -76,6 +81,7 @@ theorem untrusted_header_read_early_ok : earlyOks untrusted_header_read = [] := 
 theorem untrusted_header_read_errors : fails untrusted_header_read = [("CorruptedData", "($1.timestamp > (Utc::now() + Duration::seconds($2 as _)))"), ("InvalidBlockVersion", "!(consensus::valid_header_version($1.height, $1.version))"), ("CorruptedData", "(!($1.pow.is_primary()) && !($1.pow.is_secondary()))"), ("CorruptedData", "verify_size(&$1) ~ Err(_)"), ("CorruptedData", "($4 > (global::max_block_weight() * ($1.height + 1)))")]
     ∧ mapped untrusted_header_read = [] := by decide
 theorem untrusted_header_read_depth : depths untrusted_header_read = [0, 1, 1, 1, 1, 1] := by decide
+theorem untrusted_header_read_guard_inputs : guardInputs untrusted_header_read = ["read_block_header", "get_future_time_limit", "weight_by_iok"] := by decide
 
 /-! ### `<UntrustedBlock as Readable>::read (core/src/core/block.rs)` -/
 theorem untrusted_block_read_order : readOk untrusted_block_read = true ∧ spine untrusted_block_read =
@@ -85,6 +91,7 @@ theorem untrusted_block_read_early_ok : earlyOks untrusted_block_read = [] := by
 theorem untrusted_block_read_errors : fails untrusted_block_read = []
     ∧ mapped untrusted_block_read = [("validate_read", "CorruptedData")] := by decide
 theorem untrusted_block_read_depth : depths untrusted_block_read = [0, 0, 1, 0] := by decide
+theorem untrusted_block_read_guard_inputs : guardInputs untrusted_block_read = [] := by decide
 
 /-! ### `TransactionBody::validate_read (core/src/core/transaction.rs)` -/
 theorem body_validate_read_order : readOk body_validate_read = true ∧ spine body_validate_read =
@@ -94,6 +101,7 @@ theorem body_validate_read_early_ok : earlyOks body_validate_read = [] := by dec
 theorem body_validate_read_errors : fails body_validate_read = []
     ∧ mapped body_validate_read = [] := by decide
 theorem body_validate_read_depth : depths body_validate_read = [0, 0, 0, 0] := by decide
+theorem body_validate_read_guard_inputs : guardInputs body_validate_read = [] := by decide
 
 /-! ### `TransactionBody::validate (core/src/core/transaction.rs)` -/
 theorem body_validate_order : readOk body_validate = true ∧ spine body_validate =
@@ -103,6 +111,7 @@ theorem body_validate_early_ok : earlyOks body_validate = [] := by decide
 theorem body_validate_errors : fails body_validate = []
     ∧ mapped body_validate = [] := by decide
 theorem body_validate_depth : depths body_validate = [0, 1, 0] := by decide
+theorem body_validate_guard_inputs : guardInputs body_validate = [] := by decide
 
 /-! ### `TransactionBody::verify_weight (core/src/core/transaction.rs)` -/
 theorem body_verify_weight_order : readOk body_verify_weight = true ∧ spine body_verify_weight =
@@ -113,6 +122,7 @@ theorem body_verify_weight_early_ok : earlyOks body_verify_weight = [["$0 ~ Weig
 theorem body_verify_weight_errors : fails body_verify_weight = [("TooHeavy", "(self.weight() > $3)")]
     ∧ mapped body_verify_weight = [] := by decide
 theorem body_verify_weight_depth : depths body_verify_weight = [1] := by decide
+theorem body_verify_weight_guard_inputs : guardInputs body_verify_weight = ["<match>"] := by decide
 
 /-! ### `TransactionBody::verify_no_nrd_duplicates (core/src/core/transaction.rs)` -/
 theorem body_verify_no_nrd_duplicates_order : readOk body_verify_no_nrd_duplicates = true ∧ spine body_verify_no_nrd_duplicates =
@@ -123,6 +133,7 @@ theorem body_verify_no_nrd_duplicates_early_ok : earlyOks body_verify_no_nrd_dup
 theorem body_verify_no_nrd_duplicates_errors : fails body_verify_no_nrd_duplicates = [("InvalidNRDRelativeHeight", "!(($3 == $4))")]
     ∧ mapped body_verify_no_nrd_duplicates = [] := by decide
 theorem body_verify_no_nrd_duplicates_depth : depths body_verify_no_nrd_duplicates = [2, 2, 1, 1] := by decide
+theorem body_verify_no_nrd_duplicates_guard_inputs : guardInputs body_verify_no_nrd_duplicates = ["kernels", "len", "len"] := by decide
 
 /-! ### `TransactionBody::verify_sorted (core/src/core/transaction.rs)` -/
 theorem body_verify_sorted_order : readOk body_verify_sorted = true ∧ spine body_verify_sorted =
@@ -132,6 +143,7 @@ theorem body_verify_sorted_early_ok : earlyOks body_verify_sorted = [] := by dec
 theorem body_verify_sorted_errors : fails body_verify_sorted = []
     ∧ mapped body_verify_sorted = [] := by decide
 theorem body_verify_sorted_depth : depths body_verify_sorted = [0, 0, 0] := by decide
+theorem body_verify_sorted_guard_inputs : guardInputs body_verify_sorted = [] := by decide
 
 /-! ### `TransactionBody::verify_cut_through (core/src/core/transaction.rs)` -/
 theorem body_verify_cut_through_order : readOk body_verify_cut_through = true ∧ spine body_verify_cut_through =
@@ -141,6 +153,7 @@ theorem body_verify_cut_through_early_ok : earlyOks body_verify_cut_through = []
 theorem body_verify_cut_through_errors : fails body_verify_cut_through = [("CutThrough", "($1[0] == $1[1])")]
     ∧ mapped body_verify_cut_through = [] := by decide
 theorem body_verify_cut_through_depth : depths body_verify_cut_through = [2] := by decide
+theorem body_verify_cut_through_guard_inputs : guardInputs body_verify_cut_through = ["inputs_outputs_committed"] := by decide
 
 /-! ### `TransactionBody::verify_features (core/src/core/transaction.rs)` -/
 theorem body_verify_features_order : readOk body_verify_features = true ∧ spine body_verify_features =
@@ -150,6 +163,7 @@ theorem body_verify_features_early_ok : earlyOks body_verify_features = [] := by
 theorem body_verify_features_errors : fails body_verify_features = []
     ∧ mapped body_verify_features = [] := by decide
 theorem body_verify_features_depth : depths body_verify_features = [0, 0] := by decide
+theorem body_verify_features_guard_inputs : guardInputs body_verify_features = [] := by decide
 
 /-! ### `TransactionBody::verify_output_features (core/src/core/transaction.rs)` -/
 theorem body_verify_output_features_order : readOk body_verify_output_features = true ∧ spine body_verify_output_features =
@@ -159,6 +173,7 @@ theorem body_verify_output_features_early_ok : earlyOks body_verify_output_featu
 theorem body_verify_output_features_errors : fails body_verify_output_features = [("InvalidOutputFeatures", "self.outputs.iter().any(|..|{..})")]
     ∧ mapped body_verify_output_features = [] := by decide
 theorem body_verify_output_features_depth : depths body_verify_output_features = [1, 1] := by decide
+theorem body_verify_output_features_guard_inputs : guardInputs body_verify_output_features = [] := by decide
 
 /-! ### `TransactionBody::verify_kernel_features (core/src/core/transaction.rs)` -/
 theorem body_verify_kernel_features_order : readOk body_verify_kernel_features = true ∧ spine body_verify_kernel_features =
@@ -168,6 +183,7 @@ theorem body_verify_kernel_features_early_ok : earlyOks body_verify_kernel_featu
 theorem body_verify_kernel_features_errors : fails body_verify_kernel_features = [("InvalidKernelFeatures", "self.kernels.iter().any(|..|{..})")]
     ∧ mapped body_verify_kernel_features = [] := by decide
 theorem body_verify_kernel_features_depth : depths body_verify_kernel_features = [1, 1] := by decide
+theorem body_verify_kernel_features_guard_inputs : guardInputs body_verify_kernel_features = [] := by decide
 
 /-! ### `Transaction::validate_read (core/src/core/transaction.rs)` -/
 theorem tx_validate_read_order : readOk tx_validate_read = true ∧ spine tx_validate_read =
@@ -177,6 +193,7 @@ theorem tx_validate_read_early_ok : earlyOks tx_validate_read = [] := by decide
 theorem tx_validate_read_errors : fails tx_validate_read = []
     ∧ mapped tx_validate_read = [] := by decide
 theorem tx_validate_read_depth : depths tx_validate_read = [0, 0] := by decide
+theorem tx_validate_read_guard_inputs : guardInputs tx_validate_read = [] := by decide
 
 /-! ### `Transaction::validate (core/src/core/transaction.rs)` -/
 theorem tx_validate_order : readOk tx_validate = true ∧ spine tx_validate =
@@ -186,5 +203,6 @@ theorem tx_validate_early_ok : earlyOks tx_validate = [] := by decide
 theorem tx_validate_errors : fails tx_validate = []
     ∧ mapped tx_validate = [] := by decide
 theorem tx_validate_depth : depths tx_validate = [0, 0, 0] := by decide
+theorem tx_validate_guard_inputs : guardInputs tx_validate = [] := by decide
 
 end GV.Props.XlateShapeCore
